@@ -14,7 +14,7 @@ import views as VW
 
 RULE = ("exhaustive: every sequence of <= k ops (k=3 quick, 4 thorough on a reduced alphabet) over {tell, read(n), seek(o,whence)} "
         "with n,o in a boundary set, on each of 12 fixed view configurations over a 24-byte base; random: sequences of 40 ops over "
-        "random well-formed nestings up to depth 4 (offset, wrapper, sector, chain permutations, MDF 2352->2048, reversed width 1/2/4) over BytesIO and a real file. "
+        "random well-formed nestings up to depth 4 (offset, wrapper, sector, chain permutations, MDF 2352->2048, reversed width 1/2/3/4/6/8) over BytesIO and a real file. "
         "Non-trivial = sequence contains a read; distinct = distinct (view, base cursor, op sequence)")
 
 BASE = bytes(range(100, 124))
@@ -26,6 +26,9 @@ FIXED = [
     ("chain", 3, (7, 1), ("base",)),
     ("rev", 8, 1, ("base",)),
     ("rev", 8, 2, ("base",)),
+    ("rev", 9, 3, ("base",)),           # sample widths that are no numpy integer width (24-bit samples / frames)
+    ("rev", 12, 6, ("base",)),
+    ("rev", 9, 3, ("off", 10, 2, ("chain", 4, (3, 0, 2), ("base",)))),
     ("off", 6, 2, ("chain", 4, (3, 1, 4), ("base",))),
     ("wrap", 7, ("chain", 4, (1, 2), ("base",))),
     ("rev", 8, 2, ("off", 10, 3, ("chain", 4, (4, 0, 2), ("base",)))),
@@ -148,7 +151,10 @@ def w_rand(pid, tier, seed, job):
                         nn = rng.choice([0, 1, 2, 3, 4, 5, 8, 16, ln, ln + 3, rng.randint(0, ln + 2)])
                         if w > 1 and rng.random() < 0.8:
                             nn -= nn % w
-                        ops.append(("read", nn if rng.random() > 0.03 else -1))
+                        # read(-1) walks the view in 4096-byte blocks: on a reversed view longer than one block whose sample width does
+                        # not divide 4096 that is an unaligned read (rejected, as the property says); not generated there
+                        no_readall = w > 1 and 4096 % w != 0 and ln > 4096
+                        ops.append(("read", nn if (no_readall or rng.random() > 0.03) else -1))
                     else:
                         wh = rng.choice([0, 0, 1, 2])
                         o = rng.randint(-ln - 2, ln + 2) if wh else rng.randint(-2, ln + 3)
